@@ -53,6 +53,9 @@ def replay_history(case) -> List[Tuple[str, str]]:
                        "cache_bust_mode": "on-apply" if consts["Bust"] else "none",
                        "cache": {"enabled": True, "namespaces": ns_cfg, "max_entries": 64, "ttl_sec": 600}}}
         cfg_on = E.validated_cfg(base)
+        # the manager in the state is used by T2 whether or not t4.cache.enabled is set (the flag only decides whether
+        # run_turn creates one), so busting applies to it under either value: toggled between turns
+        cfg_on_nocache = E.validated_cfg(E.deep_merge(base, {"t4": {"cache": {"enabled": False}}}))
         cfg_off = E.validated_cfg(E.deep_merge(base, {"t4": {"enabled": False}}))
         store = E.RecordingStore()
         state = E.mk_state(E.DEFAULT_GRAPHS, [], store=None)
@@ -74,7 +77,7 @@ def replay_history(case) -> List[Tuple[str, str]]:
                 cm.invalidate_namespace(ns)
                 cm.set(ns, ("k", turn), "v")
             snap_before = _snap_listing(snapdir)
-            cfg = cfg_off if step["kill"] else cfg_on
+            cfg = cfg_off if step["kill"] else (cfg_on if (turn + len(ids) + case.get("flip", 0)) % 2 == 0 else cfg_on_nocache)
             ctx = E.mk_ctx(cfg, "A", turn)
             recs: Dict[str, List[dict]] = {}
             if variant == "apply":
@@ -99,7 +102,13 @@ def replay_history(case) -> List[Tuple[str, str]]:
                 plan = Plan(version="t3-plan-v1", ops=[], deltas=_deltas(ids))
                 with E.LogCapture() as cap, E.patched_attr(orch, t3_deliberate=lambda c, s, b, _p=plan: _p):
                     try:
-                        orch.run_turn(ctx, state, "apple")
+                        if case.get("flip") and not step["kill"]:
+                            # the same turn through the multi-agent driver's sequential path (one real run_turn on a
+                            # per-agent clone of the driver's context): the commit must obey the same t4 settings
+                            import clematis.engine.orchestrator.parallel as par
+                            par._run_agents_parallel_batch(E.mk_ctx(cfg, "driver", turn), state, [("A", "apple")])
+                        else:
+                            orch.run_turn(ctx, state, "apple")
                     except Exception as e:
                         fails.append(("StoreErrorsNeverAbort", f"turn {turn}: run_turn raised {type(e).__name__}: {e}"))
                         break
@@ -184,7 +193,7 @@ def _snap_listing(d):
 def check(run) -> None:
     q = run.quick
     run.rule = ("every terminal history of the exhaustively explored ApplyCommit model, per (cadence, bust, namespaces, start turn) setting, "
-                "replayed through apply_changes and (sampled in quick, all in thorough) through run_turn; distinct = (settings, history, variant)")
+                "replayed through apply_changes and (every 5th in quick, every 3rd in thorough, kill-switch histories every 2nd) through run_turn; distinct = (settings, history, variant)")
     invs = ["VersionPlusOne", "SnapshotCadence", "AtMostOnce", "FallbackOnlyOnBatchFailure", "HandOffExact", "KillSwitchInert"]
     settings = []
     for cadence in ([1, 2, 3] if not q else [1, 2]):
@@ -197,14 +206,15 @@ def check(run) -> None:
     for (cadence, bust, ns, start) in settings:
         consts = {"Deltas": [1, 2, 3] if nturns == 2 else [1, 2], "NTurns": nturns, "Start": start, "Cadence": cadence, "Bust": bust,
                   "Namespaces": ns, "AllNamespaces": ["t2:semantic", "x:other"],
-                  "Reports": (["counts", "none", "empty", "edits_none"] if not q else (["counts", "edits_none", "none"] if (cadence == 1 and bust) else ["counts"]))}
+                  "Reports": ((["counts", "none", "empty", "edits_none"] if (cadence == 1 and bust) else ["counts", "edits_none"]) if not q
+                              else (["counts", "edits_none", "none"] if (cadence == 1 and bust) else ["counts"]))}
         cfg = make_cfg(consts, invs, [], emit=False, view=None, constraint="EmitDone")
         res = run.tlc("ApplyCommit", cfg, name=f"ApplyCommit_c{cadence}_b{int(bust)}_n{len(ns)}_s{start}", workers=4, timeout_s=900)
         run.model_must_hold(res)
         for k, b in enumerate(res.emitted):
-            cases.append({"consts": consts, "h": b["h"], "variant": "apply", "workdir": run.workdir})
-            if (not q) or k % 5 == 0 or any(s["kill"] for s in b["h"]) and k % 2 == 0:
-                cases.append({"consts": consts, "h": b["h"], "variant": "turn", "workdir": run.workdir})
+            cases.append({"consts": consts, "h": b["h"], "variant": "apply", "workdir": run.workdir, "flip": len(cases) % 2})
+            if k % (5 if q else 3) == 0 or any(s["kill"] for s in b["h"]) and k % 2 == 0:
+                cases.append({"consts": consts, "h": b["h"], "variant": "turn", "workdir": run.workdir, "flip": len(cases) % 2})
     outs = pmap(replay_history, cases, chunk=20)
     for c, fails in zip(cases, outs):
         run.traces += 1
